@@ -19,12 +19,34 @@ import (
 	"math/big"
 	"sync"
 
+	"github.com/pkg/errors"
+
 	"perun.network/go-perun/channel"
 )
 
 func (c *Channel) translateBalances(indexMap []channel.Index) channel.Balances {
 	state := c.state()
 	return transformBalances(state.Balances, state.NumParts(), indexMap)
+}
+
+// validIndexMap checks that indexMap assigns each of the numVirtualParts
+// participants of a virtual channel a distinct participant of a parent channel
+// with numParentParts participants.
+func validIndexMap(indexMap []channel.Index, numVirtualParts, numParentParts int) error {
+	if len(indexMap) != numVirtualParts {
+		return errors.Errorf("index map: expected %d entries, got %d", numVirtualParts, len(indexMap))
+	}
+	seen := make(map[channel.Index]bool, len(indexMap))
+	for i, p := range indexMap {
+		if int(p) >= numParentParts {
+			return errors.Errorf("index map: entry %d out of range: %d", i, p)
+		}
+		if seen[p] {
+			return errors.Errorf("index map: entry %d repeats parent index %d", i, p)
+		}
+		seen[p] = true
+	}
+	return nil
 }
 
 func transformBalances(b channel.Balances, numParts int, indexMap []channel.Index) (_b channel.Balances) {
@@ -37,7 +59,10 @@ func transformBalances(b channel.Balances, numParts int, indexMap []channel.Inde
 		}
 		// Fill at specified indices.
 		for p, _p := range indexMap {
-			_b[a][_p] = b[a][p]
+			if p >= len(b[a]) || int(_p) >= numParts {
+				continue
+			}
+			_b[a][_p].Add(_b[a][_p], b[a][p])
 		}
 	}
 	return
